@@ -28,6 +28,17 @@ OPS = [
     (r"\bchecked_sub\b", "saturating_sub"), (r"\bsaturating_add\b", "wrapping_add"), (r" >>= ", " <<= "),
     (r"\bbreak;", "continue;"), (r"!(\w)", r"\1"), (r"\bunwrap_or\(0\)", "unwrap_or(1)"), (r"\.rev\(\)", ""),
 ]
+# round 3 (AUTOMUT_OPS=2): value-level operators
+OPS2 = [
+    (r"\btrue\b", "false"), (r"\bfalse\b", "true"), (r"\.is_some\(\)", ".is_none()"), (r"\.is_none\(\)", ".is_some()"),
+    (r"\.is_empty\(\)", ".is_empty() == false"), (r"\.min\(", ".max("), (r"\.max\(", ".min("), (r"\.first\(\)", ".last()"),
+    (r"\.\.=", ".."), (r"= 0;", "= 1;"), (r"= 1;", "= 0;"), (r"\b0\.\.", "1.."), (r"\bSome\(0\)", "Some(1)"),
+    (r" \+= 1;", " += 2;"), (r" -= 1;", " -= 0;"), (r"\bwrapping_add\b", "saturating_add"), (r"\bsaturating_sub\b", "wrapping_sub"),
+    (r"\.take\(128\)", ".take(127)"), (r" as u32", " as u16 as u32"), (r" as usize", " as u8 as usize"), (r"\b6\b", "5"), (r"\b13\b", "12"),
+    (r"\b32\b", "31"), (r"\b5\b", "4"), (r"\b4\b", "3"), (r"\b12\b", "11"), (r" / ", " % "), (r" << ", " >> "), (r" & ", " | "),
+]
+if os.environ.get("AUTOMUT_OPS") == "2":
+    OPS = OPS2
 
 
 def functions_by_file():
